@@ -897,7 +897,7 @@ func (c *compiler) evalCallExpression(node *ast.CallExpression) (interface{}, er
 			}()
 
 			c.ctx = octx.New()
-			for k, v := range octx.data {
+			for k, v := range octx.snapshot() {
 				c.ctx.Set(k, v)
 			}
 			c.ctx.Set(node.Function.String(), res[0].Interface())
@@ -921,7 +921,7 @@ func (c *compiler) evalForExpression(node *ast.ForExpression) (interface{}, erro
 
 	c.ctx = octx.New()
 	// must copy all data from original (it includes application defined helpers)
-	for k, v := range octx.data {
+	for k, v := range octx.snapshot() {
 		c.ctx.Set(k, v)
 	}
 
@@ -1135,7 +1135,7 @@ func (c *compiler) evalIndexCallee(rv reflect.Value, node *ast.IndexExpression) 
 
 	c.ctx = octx.New()
 	// must copy all data from original (it includes application defined helpers)
-	for k, v := range octx.data {
+	for k, v := range octx.snapshot() {
 		c.ctx.Set(k, v)
 	}
 
